@@ -194,8 +194,13 @@ func (m *Machine) reSearch(re *regexp.Regexp, s Str) []int {
 		if start >= len(s.S) {
 			break
 		}
-		// the search resumes at the next rune, not at the next byte
-		if b := s.at(start); b.T != nil && m.branch(mkBool(tBin("bvult", 0, b.T, bvConst(0x80, 8)))) {
+		// The search resumes at the next rune, not at the next byte. For an expression that can only
+		// consume ASCII runes the two are equivalent (a match cannot begin inside or at a non-ASCII
+		// rune, and an expression that matches the empty string has already matched at the first
+		// start), so the forking UTF-8 decoding is only needed otherwise.
+		if progASCIIOnly(prog) {
+			start++
+		} else if b := s.at(start); b.T != nil && m.branch(mkBool(tBin("bvult", 0, b.T, bvConst(0x80, 8)))) {
 			start++
 		} else {
 			_, w := m.decodeRune(s, start)
@@ -242,4 +247,31 @@ func asciiClassCond(inst *syntax.Inst, b *Term) (*Term, bool) {
 		rng(rs[i], rs[i+1])
 	}
 	return tOr(alts...), true
+}
+
+var asciiOnlyCache sync.Map // *syntax.Prog -> bool
+
+// progASCIIOnly: every rune-consuming instruction accepts ASCII runes only.
+func progASCIIOnly(p *syntax.Prog) bool {
+	if v, ok := asciiOnlyCache.Load(p); ok {
+		return v.(bool)
+	}
+	res := true
+	for i := range p.Inst {
+		in := &p.Inst[i]
+		switch in.Op {
+		case syntax.InstRuneAny, syntax.InstRuneAnyNotNL:
+			res = false
+		case syntax.InstRune, syntax.InstRune1:
+			if _, ok := asciiClassCond(in, bvVar("zz_ascii_probe", 8)); !ok {
+				res = false
+			}
+		case syntax.InstEmptyWidth:
+			if syntax.EmptyOp(in.Arg)&(syntax.EmptyWordBoundary|syntax.EmptyNoWordBoundary) != 0 {
+				res = false // \b can hold inside a rune boundary only by accident of bytes: keep exact stepping
+			}
+		}
+	}
+	asciiOnlyCache.Store(p, res)
+	return res
 }
